@@ -696,7 +696,7 @@ func TestC20(t *testing.T) {
 
 	probeKeys := map[string]struct{}{}
 	probeKey := func(k string) { probeKeys[k] = struct{}{} }
-	nMarkets := scale(70, 2500)
+	nMarkets := scale(70, 1000)
 	for mi := 0; mi < nMarkets; mi++ {
 		m := c20GenMarket(r, w)
 		ph := mi % 3
@@ -1681,6 +1681,35 @@ func TestC20(t *testing.T) {
 						navs = append(navs, exchange.NetAssetPrice{Assets: sdk.NewCoin(conv, sdkmath.NewIntFromBigInt(c20Amount(r))), Price: sdk.NewCoin(feeDenom, sdkmath.NewIntFromBigInt(c20Amount(r)))})
 					}
 				}
+				// inputs worth less than 10^-18 of the intermediary denom: the conversion (18 decimals,
+				// truncated) makes them zero, and a zero fee is reported like "no fee"
+				if conv != "" && i%2 == 1 && r.Intn(2) == 0 {
+					tiny := []string{"ccoin", "dcoin"}[r.Intn(2)]
+					if tiny != conv {
+						inputs = sdk.NewCoins(sdk.NewInt64Coin(tiny, r.Int63n(9)+1))
+						var keep []exchange.NetAssetPrice
+						for _, n := range navs {
+							if n.Assets.Denom != tiny {
+								keep = append(keep, n)
+							}
+						}
+						navs = append(keep, exchange.NetAssetPrice{
+							Assets: sdk.NewCoin(tiny, sdkmath.NewIntFromBigInt(new(big.Int).Add(pow2(uint(64+r.Intn(12))), c20Big(r.Int63n(1000))))),
+							Price:  sdk.NewCoin(conv, sdkmath.NewInt(r.Int63n(200)+1))})
+						if conv != feeDenom {
+							has := false
+							for _, n := range navs {
+								if n.Assets.Denom == conv && n.Price.Denom == feeDenom {
+									has = true
+								}
+							}
+							if !has {
+								navs = append(navs, exchange.NetAssetPrice{Assets: sdk.NewCoin(conv, sdkmath.NewInt(r.Int63n(50)+1)), Price: sdk.NewCoin(feeDenom, sdkmath.NewInt(r.Int63n(50)+1))})
+							}
+						}
+						w.Count("commitment_quotes_with_inputs_below_1e-18_of_the_intermediary_denom")
+					}
+				}
 				var aa []exchange.AccountAmount
 				if len(inputs) > 0 {
 					aa = []exchange.AccountAmount{{Account: src.addr.String(), Amount: inputs}}
@@ -1716,6 +1745,9 @@ func TestC20(t *testing.T) {
 				w.Count("commitment_quotes")
 				if obs != "None" {
 					w.Count("commitment_quotes_ok")
+				}
+				if obs == "(Some None)" && m.Bips > 0 && len(inputs) > 0 {
+					w.Count("commitment_quotes_zero_fee_with_bips_and_inputs")
 				}
 				if strings.HasPrefix(obs, "(Some (Some") {
 					w.Count("commitment_quotes_with_fee")
